@@ -12,6 +12,11 @@ SPEC = {
                   "the explicit fuel suffices for every oracle and the call returns whenever the kernel never reports more entries than it was offered. "
                   "The model is tied to udp.batchWriter.WriteBatch by correspondence: every sendFn invocation (slots decoded from iovecs, sockaddr and cmsg), the return "
                   "value and the GSO flag afterwards are compared, and the executable property is evaluated on the implementation's recorded behaviour. "
+                  "The limit itself is covered: prepareGSO's kernel-release gate gsoMaxSegments is modelled on (major, minor) and proved, for every major and minor, to give 63 below 6.9 "
+                  "(compared as a pair), 127 from 6.9 on, monotone, never above UDP_MAX_SEGMENTS-1 of that kernel, hence no offloaded run above 63 segments on an older kernel; the real "
+                  "gsoMaxSegments/parseRelease are swept over majors 2..9 x minors 0..40 x 6 suffix forms, outliers and malformed strings against the documented rule written independently, "
+                  "and batches of 62..128 equal datagrams are planned with the limit the real gate returns for ten releases against a fake kernel of that release that answers EINVAL above "
+                  "its own segment limit, the property's segment limit being the kernel's. "
                   "One level up, batch.SendBatch (overlay/batch/tx_batch.go) is modelled as Commit/Flush histories over the same WriteBatch model: for all histories and oracles "
                   "every Flush hands over exactly the datagrams committed since the previous Flush (drained whether or not WriteBatch returned an error), no datagram is accepted "
                   "twice over the whole history, and each Flush reports what the kernel accepted during it; tied by driving the real SendBatch (Reserve/Commit/Flush as "
